@@ -110,6 +110,11 @@ struct SslRec
 {
   SSL_CTX *ctx = nullptr;
   std::string host = "-", sni = "-";
+  // read back FROM THE SSL OBJECT when its handshake is first driven: what is really in force, whatever calls set it
+  bool hsSeen = false;
+  int hsVerify = 0, hsDepth = -1;
+  unsigned hsHostFlags = 0;
+  std::string hsHost = "-";
 };
 static std::mutex g_imx;
 static std::map<SSL_CTX *, CtxRec> g_ctx;     // iora-created contexts (alive)
@@ -276,6 +281,28 @@ extern "C" long SSL_ctrl(SSL *s, int cmd, long larg, void *parg)
   return rc;
 }
 
+extern "C" int SSL_do_handshake(SSL *s)
+{
+  static auto real = realSym<int (*)(SSL *)>("SSL_do_handshake");
+  {
+    std::lock_guard<std::mutex> g(g_imx);
+    auto it = g_ssl.find(s);
+    if (it != g_ssl.end() && !it->second.hsSeen)
+    {
+      fired("SSL_do_handshake(read-back)");
+      SslRec &r = it->second;
+      r.hsSeen = true;
+      r.hsVerify = SSL_get_verify_mode(s);
+      r.hsDepth = SSL_get_verify_depth(s);
+      X509_VERIFY_PARAM *vp = SSL_get0_param(s);
+      r.hsHostFlags = X509_VERIFY_PARAM_get_hostflags(vp);
+      const char *h = X509_VERIFY_PARAM_get0_host(vp, 0);
+      r.hsHost = h ? h : "-";
+    }
+  }
+  return real(s);
+}
+
 /// Snapshot of every SSL object iora created since the last reset (alive or already freed).
 static std::vector<std::pair<CtxRec, SslRec>> sslSnapshot()
 {
@@ -310,7 +337,10 @@ static std::string planStr(const CtxRec &c, const SslRec &s)
   std::ostringstream o;
   o << "tls(role=" << (c.role == 1 ? "server" : c.role == 2 ? "client" : "?") << ",verify=" << verifyStr(c.verify)
     << ",min=" << c.minProto << ",trust=" << c.trust << ",cert=" << (c.cert && c.key ? 1 : 0) << ",host=" << s.host
-    << ",sni=" << s.sni << ")";
+    << ",sni=" << s.sni;
+  if (s.hsSeen) o << ",hs=(verify=" << verifyStr(s.hsVerify) << ",depth=" << s.hsDepth << ",hostflags=" << s.hsHostFlags << ",host=" << s.hsHost << ")";
+  else o << ",hs=-";
+  o << ")";
   return o.str();
 }
 
@@ -389,6 +419,10 @@ static void makeCerts()
   k = genKey(); writePem("self", mkCert(k, "localhost", sanLocal, nullptr, nullptr, -DAY, 365 * DAY, false, 11), k);
   k = genKey(); writePem("expired", mkCert(k, "localhost", sanLocal, caR, kR, -30 * DAY, -DAY, false, 12), k);
   k = genKey(); writePem("wrongname", mkCert(k, "other.example", "DNS:other.example", caR, kR, -DAY, 365 * DAY, false, 13), k);
+  // subject CN = the host, but the dNSName SAN names ONLY another host: not an identity for the host (the CN is ignored once a DNS SAN exists)
+  k = genKey(); writePem("sanother", mkCert(k, "localhost", "DNS:other.example", caR, kR, -DAY, 365 * DAY, false, 15), k);
+  // subject CN = the host and NO subjectAltName at all: the CN is the identity (accepted by name)
+  k = genKey(); writePem("cnonly", mkCert(k, "localhost", nullptr, caR, kR, -DAY, 365 * DAY, false, 16), k);
   // key mismatch: the VALID certificate together with a key that is not its key
   X509_up_ref(g_ck["valid"].x);
   writePem("mismatch", g_ck["valid"].x, genKey());
@@ -408,7 +442,7 @@ static std::string certTable()
 {
   PeerScope ps;
   std::ostringstream o;
-  const char *names[] = {"valid", "self", "expired", "wrongname", "mismatch", "cvalid", "cuntrusted", "cexpired"};
+  const char *names[] = {"valid", "self", "expired", "wrongname", "mismatch", "sanother", "cnonly", "cvalid", "cuntrusted", "cexpired"};
   bool first = true;
   for (const char *nm : names)
   {
